@@ -247,6 +247,14 @@ def check_post_selection_functions(idx: Index, rep: Report, rule: str):
         ok = _eq(mid, {"ab": (c1 + c2) / tot, "pq": c3 / tot}) and _eq(fin, {"cde": c1 / tot, "Xde": c2 / tot, "cst": c3 / tot})
         rep.decide(ok, rule, sf, sf.node, text="split at positions [0, 1]: mid-circuit part keeps positions 0-1, final part the rest, both normalised",
                    what="the joint distribution is split into the marginal on the given positions and the marginal on the complement", reason=f"got {mid} / {fin}")
+        for ind, want_mid, want_fin in (([1, 3], {"bd": (c1 + c2) / tot, "qs": c3 / tot}, {"ace": c1 / tot, "aXe": c2 / tot, "pct": c3 / tot}),
+                                        ([4], {"e": (c1 + c2) / tot, "t": c3 / tot}, {"abcd": c1 / tot, "abXd": c2 / tot, "pqcs": c3 / tot}),
+                                        ([2], {"c": (c1 + c3) / tot, "X": c2 / tot}, {"abde": (c1 + c2) / tot, "pqst": c3 / tot})):
+            fo2 = cs.make_folder(idx, POST)
+            mid, fin = fo2.run_function(sf.node, {"frequencies": dict(base), "indices": list(ind), "desired_measurement": None})
+            rep.decide(_eq(mid, want_mid) and _eq(fin, want_fin), rule, sf, sf.node, text=f"split at positions {ind} (not a prefix): selected positions on one side, all the others on the other",
+                       what="the joint distribution is split into the marginal on the given positions and the marginal on the complement, wherever the positions are",
+                       reason=f"got {mid} / {fin}")
         fo2 = cs.make_folder(idx, POST)
         mid, fin = fo2.run_function(sf.node, {"frequencies": dict(base), "indices": [0, 1], "desired_measurement": "ab"})
         ok = _eq(mid, {"ab": (c1 + c2) / tot, "pq": c3 / tot}) and _eq(fin, {"cde": c1 / (c1 + c2), "Xde": c2 / (c1 + c2)})
@@ -366,3 +374,23 @@ def check_assembly(idx: Index, rep: Report):
                 bad.append((x, y, got))
     rep.decide(not bad, rule, c, c.node, text=f"qubit-wise commutation over all {len(bases) ** 2} pairs of two-qubit bases", what="two bases are compatible iff they agree on every qubit both act on",
                reason=f"e.g. {bad[:1]}")
+    # which measured bases may be pooled for a Pauli word (used when expectation values are assembled from experimental histograms): the word has to be
+    # diagonal in the basis - on every qubit it acts on, the basis measures that very letter (an unrotated qubit, 'I' in the basis string, is read in Z)
+    MB = "tangelo/linq/helpers/circuits/measurement_basis.py"
+    gcb = idx.function(f"{MB}::get_compatible_bases")
+    words = ["".join(w) for w in itertools.product("IXYZ", repeat=2)]
+    bad = []
+    for op in words:
+        fo = cs.make_folder(idx, MB)
+        try:
+            got = fo.run_function(gcb.node, {"op": op, "basis_list": list(words)})
+        except (Undecidable, Raised) as e:
+            raise AnalysisError(f"get_compatible_bases not foldable: {e}")
+        diagonal = {b for b in words if all(o == "I" or o == p_ or (o == "Z" and p_ == "I") for o, p_ in zip(op, b))}
+        needed = {b for b in words if all(o == "I" or o == p_ for o, p_ in zip(op, b))}
+        extra, missing = set(got) - diagonal, needed - set(got)
+        if extra or missing or len(got) != len(set(got)):
+            bad.append(f"{op}: " + (f"accepts {sorted(extra)[:3]} in which it is not diagonal" if extra else f"rejects {sorted(missing)[:3]}"))
+    rep.decide(not bad, rule, gcb, gcb.node, text=f"bases compatible with a Pauli word, for all {len(words)} two-qubit words against all {len(words)} bases",
+               what="a histogram is pooled for a word only if the word is diagonal in the measured basis (same letter on every qubit the word acts on), and every basis that "
+                    "measures the word's letters is accepted", reason="; ".join(bad[:3]))
